@@ -377,23 +377,26 @@ func R8ByteOrder(c *Ctx) {
 			continue
 		}
 		good, bad := 0, 0
-		EachCall(fn, func(call ssa.CallInstruction) {
-			n := CalleeName(call)
-			isBig := strings.HasPrefix(n, "(encoding/binary.bigEndian).Uint")
-			isLittle := strings.HasPrefix(n, "(encoding/binary.littleEndian).Uint")
-			if !isBig && !isLittle {
-				return
-			}
-			for _, f := range FactsAt(call.Block()) {
-				if DerivesFrom(f.Cond, IsFieldLoad(PkgParser+".Parser", "bigEndian")) {
-					if f.Truth == isBig {
-						good++
-					} else {
-						bad++
+		// the decode may live in an unexported helper of the reader
+		for _, rf := range HelperClosure(fn, 2) {
+			EachCall(rf, func(call ssa.CallInstruction) {
+				n := CalleeName(call)
+				isBig := strings.HasPrefix(n, "(encoding/binary.bigEndian).Uint")
+				isLittle := strings.HasPrefix(n, "(encoding/binary.littleEndian).Uint")
+				if !isBig && !isLittle {
+					return
+				}
+				for _, f := range FactsAt(call.Block()) {
+					if DerivesFrom(f.Cond, IsFieldLoad(PkgParser+".Parser", "bigEndian")) {
+						if f.Truth == isBig {
+							good++
+						} else {
+							bad++
+						}
 					}
 				}
-			}
-		})
+			})
+		}
 		if bad == 0 && good >= 2 {
 			c.R.Ok(rule, FuncShort(fn), "if p.bigEndian {BigEndian} else {LittleEndian}", c.pos(fn.Pos()), "byte order follows the parser's flag", true)
 		} else {
